@@ -31,13 +31,14 @@ def shards(tier, seed):
     nconc = 25 if tier == "quick" else 300
     for tr in ("pipe", "pipe", "tcp", "tcp", "tcp", "proxy"):
         out.append({"kind": "conc", "transport": tr, "runs": nconc})
+    out.append({"kind": "slowpeer", "runs": 150 if tier == "quick" else 6000})
     for specname in ("popen", "socket", "via"):
         out.append({"kind": "real", "spec": specname, "runs": 6 if tier == "quick" else 60})
     return out
 
 
 def run_shard(spec):
-    return {"chunk": run_chunk, "conc": run_conc, "real": run_real}[spec["kind"]](spec)
+    return {"chunk": run_chunk, "conc": run_conc, "real": run_real, "slowpeer": run_slowpeer}[spec["kind"]](spec)
 
 
 # ---------------------------------------------------------------------------
@@ -274,6 +275,119 @@ def check_stream(res, stream: bytes, sent: dict, label: str):
             res.violation(f"wire-frames-lost:{label}", f"thread {t}: {len(per_thread[t])}/{len(lst)} frames arrived intact")
 
 
+class SlowPeerSock:
+    """A real socket (one end of a socketpair) seen through the eyes of a peer that, now and then, does not read for
+    longer than ANY finite time limit the connection has configured for its writes. What the kernel does then depends on
+    what the code under test configured on the socket, so that is read back from the socket itself:
+    no limit (blocking socket, no SO_SNDTIMEO) - the write simply takes that long and completes: modelled by a normal
+    complete write; a limit (settimeout / SO_SNDTIMEO) - part of the bytes have gone out when the limit strikes, and the
+    call fails with the error the kernel/socket module gives. Virtual time: nothing sleeps."""
+
+    def __init__(self, sock, rng, p_slow):
+        self._s = sock
+        self._rng = rng
+        self._p = p_slow
+        self.slow_periods = 0
+        self.limits_seen = 0
+
+    def __getattr__(self, name):
+        return getattr(self._s, name)
+
+    def _limit(self):
+        import socket
+        import struct
+
+        if self._s.gettimeout() is not None:
+            return "timeout"
+        try:
+            tv = self._s.getsockopt(socket.SOL_SOCKET, socket.SO_SNDTIMEO, 16)
+            if any(struct.unpack("ll", tv[:16])):
+                return "sndtimeo"
+        except OSError:
+            pass
+        return None
+
+    def sendall(self, data):
+        if len(data) > 1 and self._rng.random() < self._p:
+            self.slow_periods += 1
+            lim = self._limit()
+            if lim is not None:
+                self.limits_seen += 1
+                self._s.sendall(bytes(data[: self._rng.randrange(1, len(data))]))
+                if lim == "timeout":
+                    raise TimeoutError("timed out")
+                raise BlockingIOError(11, "Resource temporarily unavailable")
+        return self._s.sendall(data)
+
+    def send(self, data):
+        self.sendall(data)
+        return len(data)
+
+
+def run_slowpeer(spec):
+    """socket connection, a peer that is slow beyond every configured limit: each message whose write returned normally
+    is decoded by the peer, in order, whatever happened to the writes that failed"""
+    import socket
+
+    from execnet import gateway_base as gb
+    from execnet import gateway_socket as gs
+
+    res = Result()
+    rng = core.rng_for("C08s", spec["tier"], spec["seed"], spec["shard"])
+    em = gb.get_execmodel("thread")
+    for run in range(spec["runs"]):
+        a, b = socket.socketpair()
+        slow = SlowPeerSock(a, rng, rng.choice((0.1, 0.3, 0.6)))
+        io = gs.SocketIO(slow, em)
+        chunks: list[bytes] = []
+
+        def reader():
+            while True:
+                d = b.recv(1 << 16)
+                if not d:
+                    return
+                chunks.append(d)
+
+        rt = threading.Thread(target=reader, daemon=True)
+        rt.start()
+        ok: list = []
+        failed = 0
+        for seq in range(rng.choice((2, 5, 12))):
+            size = rng.choice((0, 1, 100, 5000, 70000, 300000))
+            frame = (rng.choice((gb.Message.CHANNEL_DATA, gb.Message.CHANNEL_CLOSE_ERROR, gb.Message.STATUS)), rng.choice((1, 3, 2**31 - 1, -5)),
+                     make_payload(b"<0:%d>" % seq, size))
+            try:
+                gb.Message(*frame).to_io(io)
+                ok.append(frame)
+            except (OSError, ValueError):
+                failed += 1
+        try:
+            a.shutdown(socket.SHUT_WR)
+        except OSError:
+            pass
+        rt.join(20)
+        a.close()
+        b.close()
+        res.count("slow_peer_runs")
+        res.count("slow_peer_periods", slow.slow_periods)
+        res.count("slow_peer_periods_with_a_write_limit_configured", slow.limits_seen)
+        res.count("frames_written_to_a_slow_peer", len(ok))
+        res.case(core.h64("slowpeer", run, len(ok), failed, slow.slow_periods))
+        stream = b"".join(chunks)
+        label = f"{len(ok)} messages written, {failed} writes failed, {slow.slow_periods} slow periods"
+        got = []
+        try:
+            frames, rest = codec.parse_frames(stream)
+            got = [(c, i, p_) for c, i, p_, _s, _e in frames]
+        except codec.RefError as e:
+            res.violation("frame-torn-on-slow-peer:socket", f"{label}: {e}")
+            continue
+        if got != ok or rest:
+            res.violation("frame-torn-on-slow-peer:socket",
+                          f"{label}: the peer decodes {len(got)} frames (+{len(rest)} bytes) - {[(c, i, len(p_)) for c, i, p_ in got][:6]}, written were {[(c, i, len(p_)) for c, i, p_ in ok][:6]}")
+    return res
+
+
 def run_conc(spec):
     import execnet
     from execnet import gateway_base as gb
@@ -285,14 +399,24 @@ def run_conc(spec):
     pre = imodel.Preempt(core.REPO_SRC)
     pre.install()
     maxsize = (1 << 20) if spec["tier"] == "quick" else (4 << 20)
+    from execnet import gateway_socket as gs
+
+    wl = imodel.function_lines(gb.Popen2IO.write) if spec["transport"] == "pipe" else imodel.function_lines(gs.SocketIO.write)
+    wl += imodel.function_lines(gb.BaseGateway._send, gb.Message.to_io)
+    sweep_targets = [(f, ln, k) for (f, ln) in sorted(set(wl)) for k in ((1, 1, 2, 5) if spec["tier"] == "quick" else (1, 1, 2, 2, 3, 5, 8, 13))]
+    res.info["write_sweep_targets"] = len(sweep_targets)
     try:
-        for run in range(spec["runs"]):
+        for run in range(max(spec["runs"], len(sweep_targets) + 10 if spec["transport"] != "proxy" else 0)):
             sched = imodel.Sched(rng.getrandbits(32))
             em = imodel.imodel("thread", sched)
             tr = spec["transport"]
             T = rng.choice((2, 3, 4, 8))
             per = rng.choice((3, 6, 12))
             sizes = [rng.choice((0, 1, 100, 5000, 70000, 300000, maxsize)) for _ in range(8)]
+            if run < len(sweep_targets) and tr != "proxy" and run % 2 == 0:
+                # nothing follows the frames under test: one frame per thread, and no later write can push a stuck one out
+                T, per = rng.choice((2, 2, 3)), 1
+                sizes = [rng.choice((0, 1, 100, 3000)) for _ in range(8)]  # (smaller than the buffer of a buffered file: they stay in it until flushed)
             if tr == "proxy":
                 run_conc_proxy(res, rng, sched, T, per, sizes, pre)
                 continue
@@ -338,7 +462,13 @@ def run_conc(spec):
                 except BaseException as e:  # noqa
                     errs.append(repr(e))
 
-            pre.set_noise(rng.getrandbits(32), rng.choice((0.0, 0.02, 0.1)))
+            if run < len(sweep_targets) and tr != "proxy":
+                # one thread held for a while at one line of the low-level write, the others go on
+                f_, ln_, k_ = sweep_targets[run]
+                pre.restart()
+                pre.set_sweep(f_, ln_, k_, stall=0.15 if per == 1 else 0.05)
+            else:
+                pre.set_noise(rng.getrandbits(32), rng.choice((0.0, 0.02, 0.1)))
             ths = [threading.Thread(target=sender, args=(t,), daemon=True) for t in range(T)]
             for t in ths:
                 t.start()
@@ -346,11 +476,22 @@ def run_conc(spec):
             for t in ths:
                 t.join(60)
                 hung |= t.is_alive()
+            if pre.mode == "sweep" and pre.fired:
+                res.count("write_sweep_fired")
             pre.off()
             if hung:
                 res.violation(f"concurrent-send-hung:{tr}", f"T={T}")
             if errs:
                 res.violation(f"concurrent-send-raised:{tr}", errs[0])
+            # every send has returned: all frames are on the wire now, without any further write, flush or close
+            if not hung and not errs:
+                expect = sum(9 + len(fr[2]) for fl in sent.values() for fr in fl)
+                pairs.wait_until(lambda: sum(map(len, chunks)) >= expect, 10.0)
+                have = sum(map(len, chunks))
+                res.count("on_the_wire_checks")
+                if have < expect:
+                    res.violation(f"frame-not-on-the-wire-after-send-returned:{tr}",
+                                  f"T={T} per={per}: all senders returned, the peer has read {have} of {expect} bytes after 10 s without further writes")
             try:
                 peer.raw_a.close_write()
             except Exception:
